@@ -176,7 +176,7 @@ pub fn word(rng: &mut Rng) -> String {
         _ => {
             let chunks = rng.range_usize(1, 4);
             for _ in 0..chunks {
-                match rng.weighted(&[40, 15, 10, 8, 4, 5, 3, 3, 2]) {
+                match rng.weighted(&[40, 15, 10, 8, 4, 5, 3, 3, 2, 1]) {
                     0 => {
                         for _ in 0..rng.range_usize(1, 4) {
                             w.push((b'a' + rng.below(26) as u8) as char);
@@ -189,6 +189,9 @@ pub fn word(rng: &mut Rng) -> String {
                     5 => w.push_str(pick_str(rng, &["-", "-", "--", "---"])),
                     6 => w.push_str(pick_str(rng, &["``", "''", "`", "'", "!`", "?`"])),
                     7 => w.push(rng.range_i32(33, 126) as u8 as char),
+                    // characters above 127 (eight-bit codes of a T1-like font; cmr10 simply has no such character): a word is
+                    // a sequence of characters, not of UTF-8 bytes
+                    9 => w.push(*rng.pick(&['\u{e9}', '\u{df}', '\u{f8}', '\u{c5}', '\u{ff}', '\u{a1}'])),
                     _ => w.push_str(pick_str(rng, DICT)),
                 }
             }
